@@ -76,11 +76,14 @@ claim("C02",
 prop("C01", ["split_order", "take_range", "operator_tpl", "vec_utils", "group_take", "flatten_sort", "sort_take", "sort_infer", "setop_pairs", "lower_transform", "positional_map", "sql_prec", "literal_rows", "lower_expr", "sql_relations", "sql_case", "static_eval", "lineage_except"],
      select={"static_eval": lambda n: n.split(".", 1)[1] in ("SE1", "SE1f", "SE1k", "SE2", "SE2i", "SE2x", "SE3", "SE3f") or n.endswith(".safety"),
              "lineage_except": lambda n: n.split(".", 1)[1] in ("LE1", "LE2", "LE3", "RN1", "RN2", "JL1", "JL2") or n.endswith(".safety"),
-             "operator_tpl": lambda n: not n.split(".", 1)[1].startswith("WFA."), "sql_relations": lambda n: n.split(".", 1)[1] in ("JN1", "JN2", "translate_join.safety"), "sql_prec": lambda n: n.split(".", 1)[1] in ("NP5eq", "NP5ne", "process_null.safety", "NP6a", "NP6b", "try_into_between.safety", "try_into_between.precondition")},
+             "operator_tpl": lambda n: not n.split(".", 1)[1].startswith("WFA."), "sql_relations": lambda n: n.split(".", 1)[1] in ("JN1", "JN2", "translate_join.safety"), "sql_prec": lambda n: n.split(".", 1)[1] in ("NP5eq", "NP5ne", "process_null.safety", "NP6a", "NP6b", "try_into_between.safety", "try_into_between.precondition")
+             # which rows a filter / a join condition keeps is the value of an expression: the parenthesisation rows of the binary operators (an operand printed bare must re-parse as that operand)
+             # (the rows of the parent `||` are the recorded finding of C02 - sql_prec.NP2.Concat.* - and stay there: one finding, listed once)
+             or (n.split(".", 1)[1].startswith("NP2.") and not n.split(".", 1)[1].startswith("NP2.Concat."))},
      not_covered="anchor_split cid redirection, preprocess (distinct/union recognition), lowering, flattening, the other pluck call sites of translate_select_pipeline (select / sort / take / join): hash-map threaded folds over three "
                  "IRs; a violation there is invisible to these contracts")
 claim("C01",
-      "PARTIAL (necessary conditions). Proved on the real functions, for all inputs: is_split_required never lets a transform share a SELECT "
+      "PARTIAL (necessary conditions). Proved on the real functions, for all inputs: an operand of a binary operator is printed bare only where it re-parses as that operand (sql_prec NP2 rows, shared with C02: which rows a filter keeps is the value of its condition); is_split_required never lets a transform share a SELECT "
       "with a later transform that SQL's logical clause order would evaluate earlier (one clause per (transform, later transform) pair, SO1.*), "
       "its frame (SO2); a filter never follows a compute in one SELECT unless it is a HAVING (SO1c); can_materialize inlines a column only if "
       "its complexity is allowed by every requirement (CM1) with Complexity the total order Plain<NonGroup<Windowed<Aggregation (CX1); "
@@ -238,7 +241,7 @@ claim("C13",
 
 def _safety(name):
     lab = name.split(".", 1)[1]
-    if lab.startswith("UA.") or lab.startswith("HP.") or lab.startswith("SF.") or lab.startswith("SI."):
+    if lab.startswith("UA.") or lab.startswith("HP.") or lab.startswith("SF.") or lab.startswith("SI.") or lab.startswith("RS."):
         return True
     return lab.endswith(".safety") or lab.endswith(".overflow") or lab.endswith(".div0") or lab.endswith(".decreases") or lab.endswith(".unreachable") or lab.endswith(".unwrap") or lab.endswith(".index") or lab.endswith(".loop_exit") or lab.endswith(".precondition") \
         or lab in ("SU2", "TR3s", "TR3e", "TR3o", "SB1", "SB2", "TS0", "WF1b", "XA1", "LN1", "TU1", "TU2", "SR1", "SR2", "SQ1", "SQ2", "EN1", "EN2", "EN3", "DL1", "NB1", "WS1", "IP1", "NB2") \
@@ -246,7 +249,7 @@ def _safety(name):
 
 
 _ALL_UNITS = ["take_range", "sort_take", "split_order", "window_frame", "dialect_select", "ident_quote", "ids_names", "toposort", "rq_tables",
-              "select_shape", "span_units", "sql_prec", "prql_prec", "literals", "set_ops", "desugar", "resolve_guards", "lex_strings", "limit_clause", "static_eval", "operator_tpl", "rel_names", "lower_cols", "vec_utils", "group_take", "flatten_sort", "star_exclude", "std_arity", "limit_select", "rq_shape", "star_cols", "func_env", "json_lits", "cte_define", "type_meet", "fmt_strings", "concat_ops", "sstring_query", "sstring_cols", "lineage_except", "sort_infer", "setop_pairs", "setops_reach", "tuple_unpack", "resolver_unwraps", "name_lookup", "frame_decls", "select_cols", "lower_transform", "sort_names", "positional_map", "fmt_interp", "datetime_lit", "lex_numbers", "rq_fold", "dialect_flags", "cid_inline", "module_names", "compose_errors", "lex_end_expr", "fmt_names", "header_args", "literal_rows", "tuple_helpers", "pipeline_types", "lower_ident", "sql_templates", "interp_ident", "table_instance", "fmt_width", "span_frame", "range_sugar", "pl_fold", "lower_expr", "sql_relations", "anchor_names", "ident_kinds", "sql_case", "literal_frame", "relation_literal", "fmt_entry", "parse_files", "array_item_type", "token_filter"]
+              "select_shape", "span_units", "sql_prec", "prql_prec", "literals", "set_ops", "desugar", "resolve_guards", "lex_strings", "limit_clause", "static_eval", "operator_tpl", "rel_names", "lower_cols", "vec_utils", "group_take", "flatten_sort", "star_exclude", "std_arity", "limit_select", "rq_shape", "star_cols", "func_env", "json_lits", "cte_define", "type_meet", "fmt_strings", "concat_ops", "sstring_query", "sstring_cols", "lineage_except", "sort_infer", "setop_pairs", "setops_reach", "tuple_unpack", "resolver_unwraps", "name_lookup", "frame_decls", "select_cols", "lower_transform", "sort_names", "positional_map", "fmt_interp", "datetime_lit", "lex_numbers", "rq_fold", "dialect_flags", "cid_inline", "module_names", "compose_errors", "lex_end_expr", "fmt_names", "header_args", "literal_rows", "tuple_helpers", "pipeline_types", "lower_ident", "sql_templates", "interp_ident", "table_instance", "fmt_width", "span_frame", "range_sugar", "pl_fold", "lower_expr", "sql_relations", "anchor_names", "ident_kinds", "sql_case", "literal_frame", "relation_literal", "fmt_entry", "parse_files", "array_item_type", "token_filter", "slice_frame"]
 
 
 def _c12_split_order(n):
@@ -260,7 +263,7 @@ prop("C12", _ALL_UNITS, select=dict({u: _safety for u in _ALL_UNITS}, split_orde
                  "recursion depth, chumsky, time bounds")
 claim("C12",
       "PARTIAL. C12 collects the panic-freedom and termination obligations of every real function under contract in the other units (plus the table rows std_arity UA.*: every unpack::<N> of resolve_special_func and every args[i] of "
-      "static_eval_rq_operator matches the parameter count std.prql declares for that internal function): Verus proves, per "
+      "static_eval_rq_operator matches the parameter count std.prql declares for that internal function; and the syntactic frame rows slice_frame RS.*: the functions that index a string or a slice by a range are the eight listed ones): Verus proves, per "
       "function, absence of arithmetic overflow, failed unwrap/expect, out-of-range index, reachable unreachable!() and (for Toposort::visit and every "
       "loop) termination, under preconditions derived from the call sites. Obligations whose failure is a recorded finding: the parser-span / "
       "character-offset mismatch that makes ErrorMessages::composed panic (span_units.SU2); the reachable todo!() of type_intersection (type_meet). Functions that are under contract only for C12: translate_query_sstring (std::str slicing on character boundaries), the tuple-type check of the parser (empty tuple), the two unreachable!() of translate_set_ops_pipeline together with the set-operation rows of the split table that keep anything else out of that pipeline, the std.not arm of the resolver, the names of a relation literal's columns. NOT proved: the rest of the code base, stack depth, time.",
@@ -287,11 +290,13 @@ claim("C08",
       "sqlparser's Display (leaves doubled quotes alone - read in its source, validated by the thorough-tier sweep on SQLite) and sqlformat (white space only, given "
       "its precondition) are trusted; str::parse, str::replace and format! are uninterpreted; date/time/interval arms are not under contract.")
 
-prop("C07", ["set_ops", "limit_clause", "literals", "rel_names", "cte_define", "sql_prec", "static_eval", "positional_map", "rq_fold", "dialect_flags", "literal_rows", "sql_templates", "operator_tpl", "sql_relations", "split_order", "sstring_cols", "sort_infer", "group_take", "relation_literal"], select={"group_take": lambda n: n.split(".", 1)[1] in ("DT1", "DT2", "DT3", "DT4") or n.endswith(".safety"), "sort_infer": lambda n: n.split(".", 1)[1] in ("SI2", "SI6", "SI7", "sort_step.safety") or n.split(".", 1)[1].startswith("SI"), "sstring_cols": lambda n: n.split(".", 1)[1] in ("PN1", "PN2", "PN3", "SC1") or n.endswith(".safety"), "split_order": lambda n: n.split(".", 1)[1].startswith(("SO1.Union.", "SO1.Except.", "SO1.Intersect.")) or n.split(".", 1)[1] in ("is_split_required.safety",), "operator_tpl": lambda n: n.split(".", 1)[1] in ("TP4", "TP4v", "operator_lookup_slice.safety", "operator_lookup_slice.unwrap"), "static_eval": lambda n: n.split(".", 1)[1] in ("SE2w", "SE2i", "SE2x", "static_eval_case.safety"), "literals": lambda n: n.split(".", 1)[1] in ("EI1", "expr_of_i64.safety", "TL1i", "TL1f", "NE1", "FM1"), "sql_prec": lambda n: n.split(".", 1)[1].startswith("NP4.std_neg") or n.endswith(".safety")},
+prop("C07", ["set_ops", "limit_clause", "literals", "rel_names", "cte_define", "sql_prec", "static_eval", "positional_map", "rq_fold", "dialect_flags", "literal_rows", "sql_templates", "operator_tpl", "sql_relations", "split_order", "sstring_cols", "sort_infer", "group_take", "relation_literal", "ident_quote"], select={"group_take": lambda n: n.split(".", 1)[1] in ("DT1", "DT2", "DT3", "DT4") or n.endswith(".safety"),
+     # a quoted identifier is ONE syntactically valid identifier naming the intended object only if the quote character inside it is doubled (QI1) and the quoting rule is the dialect's (IQ rows)
+     "ident_quote": lambda n: n.split(".", 1)[1] in ("QI1", "IQ1", "IQ1q", "IQ2", "IQ3", "quoted_ident.safety", "translate_ident_part.safety"), "sort_infer": lambda n: n.split(".", 1)[1] in ("SI2", "SI6", "SI7", "sort_step.safety") or n.split(".", 1)[1].startswith("SI"), "sstring_cols": lambda n: n.split(".", 1)[1] in ("PN1", "PN2", "PN3", "SC1") or n.endswith(".safety"), "split_order": lambda n: n.split(".", 1)[1].startswith(("SO1.Union.", "SO1.Except.", "SO1.Intersect.")) or n.split(".", 1)[1] in ("is_split_required.safety",), "operator_tpl": lambda n: n.split(".", 1)[1] in ("TP4", "TP4v", "operator_lookup_slice.safety", "operator_lookup_slice.unwrap"), "static_eval": lambda n: n.split(".", 1)[1] in ("SE2w", "SE2i", "SE2x", "static_eval_case.safety"), "literals": lambda n: n.split(".", 1)[1] in ("EI1", "expr_of_i64.safety", "TL1i", "TL1f", "NE1", "FM1"), "sql_prec": lambda n: n.split(".", 1)[1].startswith("NP4.std_neg") or n.endswith(".safety")},
      not_covered="scope of every table / column reference, per-dialect grammar, empty projections, relation alias uniqueness (assign_names), "
                  "which dialects besides SQLite have no bare OFFSET (MySQL, BigQuery: the handler table is assumed, not executable here)")
 claim("C07",
-      "PARTIAL (necessary conditions only). Proved on the real code: EXCEPT ALL is created only for dialects that have it - otherwise a compile error "
+      "PARTIAL (necessary conditions only). Proved on the real code: a quoted identifier doubles the quote character inside it and uses the dialect's quote (ident_quote QI1, IQ1-3: one valid identifier, naming the intended object); EXCEPT ALL is created only for dialects that have it - otherwise a compile error "
       "(unknown columns) or the anti-join fallback (EX1-3); the WITH clause is RECURSIVE iff at least one of its CTEs is a loop CTE, wherever it stands "
       "(WR1, loop invariant, any number of CTEs) and carries every CTE (WR2); the set quantifier is ALL iff duplicates are kept and DISTINCT is written "
       "only where the dialect accepts it (SQ1-2); the LIMIT / OFFSET / FETCH clause is one the dialect's grammar has: FETCH never without OFFSET and ORDER BY and "
